@@ -28,6 +28,13 @@ const CLIENT_STOPS: &[&str] = &["client.idle", "store.present", "id.next", "cmd.
     "upsert.update", "upsert.weight_of", "ttl.put", "ttl.delete", "ttl.update.remove", "ttl.update.insert",
     "shutdown.cas", "buf.send_shutdown", "shutdown.consumer_flag", "shutdown.ticker_flag", "shutdown.store_clear", "shutdown.kw_clear",
     "shutdown.wu_zero", "shutdown.af_clear", "shutdown.stats_clear", "shutdown.ttl_clear"];
+/// While a client executes a multi-key read every load of the shutdown flag is a step of its own (`CPc.mgetFlag` of the
+/// model): `multi_get` loads it at its entry and again inside every `get`; `MultiGetIterator::next` loads it and then calls
+/// `get`, which loads it again. Every other call loads the flag exactly once, as part of its first action.
+const MGET_STOPS: &[&str] = &["flag.load", "client.idle", "store.present", "id.next", "cmd.send", "delete.mark", "store.get", "pool.add", "wu.read",
+    "upsert.update", "upsert.weight_of", "ttl.put", "ttl.delete", "ttl.update.remove", "ttl.update.insert",
+    "shutdown.cas", "buf.send_shutdown", "shutdown.consumer_flag", "shutdown.ticker_flag", "shutdown.store_clear", "shutdown.kw_clear",
+    "shutdown.wu_zero", "shutdown.af_clear", "shutdown.stats_clear", "shutdown.ttl_clear"];
 
 #[derive(Clone, Debug)]
 enum Req {
@@ -56,7 +63,7 @@ impl Req {
             Req::PutFn(k, v, w, t) => format!("putw {} {} {} {} #fn", k, v, w, opt(t)),
             Req::MapGet(k) => format!("get {} #map", k),
             Req::MapGetRef(k) => format!("getref {} #map", k),
-            Req::MGet(ks, variant) => format!("mget {} {} #v{}", ks.iter().map(|k| k.to_string()).collect::<Vec<_>>().join(","), (*variant != 0) as u8, variant),
+            Req::MGet(ks, variant) => format!("mget {} {} #v{}", if ks.is_empty() { "-".to_string() } else { ks.iter().map(|k| k.to_string()).collect::<Vec<_>>().join(",") }, (*variant != 0) as u8, variant),
             Req::Delete(k) => format!("delete {}", k),
             Req::Get(k) => format!("get {}", k),
             Req::Weight => "weight".to_string(),
@@ -269,6 +276,8 @@ impl World {
             }
         }));
         self.pending_job[client] = true;
+        // the client is parked at `client.idle`: the stop list it consults from its next schedule point on
+        verif::set_stops(&format!("c{}", client), false, if matches!(req_copy, Req::MGet(..)) { MGET_STOPS } else { CLIENT_STOPS });
         self.current_key[client] = match req_copy { Req::PutW(k, ..) | Req::PutFn(k, ..) | Req::Delete(k) | Req::Get(k) | Req::MapGet(k) | Req::GetRef(k) | Req::MapGetRef(k) | Req::Upsert(k, ..) => Some(k), _ => None };
         self.is_getref[client] = matches!(req_copy, Req::GetRef(_) | Req::MapGetRef(_));
     }
@@ -397,7 +406,8 @@ fn parse_req(tokens: &[&str]) -> Option<Req> {
         ("putw", 5) => Req::PutW(tokens[1].parse().ok()?, tokens[2].parse().ok()?, tokens[3].parse().ok()?, parse_opt(tokens[4])),
         ("putw", 6) if tokens[5] == "#fn" => Req::PutFn(tokens[1].parse().ok()?, tokens[2].parse().ok()?, tokens[3].parse().ok()?, parse_opt(tokens[4])),
         ("get", 3) if tokens[2] == "#map" => Req::MapGet(tokens[1].parse().ok()?),
-        ("mget", 4) => Req::MGet(tokens[1].split(',').filter(|t| !t.is_empty()).map(|t| t.parse().ok()).collect::<Option<Vec<u64>>>()?, tokens[3].trim_start_matches("#v").parse().ok()?),
+        ("mget", 4) => Req::MGet(tokens[1].split(',').filter(|t| !t.is_empty() && *t != "-").map(|t| t.parse().ok()).collect::<Option<Vec<u64>>>()?, tokens[3].trim_start_matches("#v").parse().ok()?),
+        ("mget", 3) => Req::MGet(tokens[1].split(',').filter(|t| !t.is_empty() && *t != "-").map(|t| t.parse().ok()).collect::<Option<Vec<u64>>>()?, (tokens[2] != "0") as u8),
         ("getref", 3) if tokens[2] == "#map" => Req::MapGetRef(tokens[1].parse().ok()?),
         ("delete", 2) => Req::Delete(tokens[1].parse().ok()?),
         ("get", 2) => Req::Get(tokens[1].parse().ok()?),
@@ -434,7 +444,8 @@ pub fn run_script(path: &str, out: &str) -> bool {
         writeln!(sink.implementation, "R init | {} | {}", world.pcs(), world.snapshot()).unwrap();
         let mut hang = None;
         for line in lines.iter().filter(|l| l.starts_with("B ")) {
-            let tokens: Vec<&str> = line.split(' ').filter(|t| !t.contains('=') && !t.starts_with('#')).collect();
+            // the variant markers of a request (`#fn`, `#map`, `#v<n>`) belong to it; any other `#…` token is a comment
+            let tokens: Vec<&str> = line.split(' ').filter(|t| !t.contains('=') && (!t.starts_with('#') || *t == "#fn" || *t == "#map" || (t.starts_with("#v") && t[2..].parse::<u8>().is_ok()))).collect();
             let choice = match tokens.get(1).copied() {
                 Some("issue") => match (tokens.get(2).and_then(|c| c.parse::<usize>().ok()), parse_req(&tokens[3.min(tokens.len())..])) {
                     (Some(client), Some(req)) if client < cfg.clients && !world.pending_job[client] && World::at(&format!("c{}", client)) == "client.idle" => Choice::Issue(client, req),
@@ -577,6 +588,42 @@ pub fn run_race(seed: u64, out: &str, args: &[String]) -> bool {
                 for req in [Req::Get(hot), Req::Weight] {
                     if world.pending_job[1] || World::at("c1") != "client.idle" { break; }
                     perform(&mut world, &Choice::Issue(1, req), &mut sink)?;
+                    settle(&mut world, &mut sink, None)?;
+                }
+                return Ok(());
+            }
+            // template "flag window" (every tenth case): a multi-key read (all three variants) caught somewhere in its programme —
+            // mostly BETWEEN two consecutive loads of the shutdown flag (after the load of `next()` / of `multi_get`'s entry and
+            // before the load inside `get`; or after one key is done and before the next load) — while another client runs
+            // `shutdown()` up to and including its compare-and-swap; then the read is released. The `get` that finds the flag set
+            // answers `None` without a lookup (no miss is counted); the iterators end at their own next load.
+            if rng.chance(10) {
+                perform(&mut world, &Choice::Issue(1, Req::PutW(hot, 101, 2, None)), &mut sink)?;
+                settle(&mut world, &mut sink, None)?;
+                if rng.chance(60) { perform(&mut world, &Choice::Issue(1, Req::PutW(1, 102, 2, None)), &mut sink)?; settle(&mut world, &mut sink, None)?; }
+                let variant = rng.below(3) as u8;
+                let keys = match (variant, rng.below(3)) { (_, 0) => vec![hot], (0, _) | (_, 1) => vec![hot, 1], _ => vec![hot, 1, hot] };
+                perform(&mut world, &Choice::Issue(0, Req::MGet(keys, variant)), &mut sink)?;
+                // 2: between the outer load and the load inside the first `get`; 1: before the very first load; more: further in
+                let depth = rng.pick(&[2u64, 2, 2, 1, 3, 4, 5, 6, 7, 8]);
+                for _ in 0..depth {
+                    if !world.enabled("c0") || World::at("c0") == "client.idle" && !world.pending_job[0] { break; }
+                    perform(&mut world, &Choice::Role("c0".to_string()), &mut sink)?;
+                }
+                // mostly the window is closed on a load: go on to the next `flag.load` the read reaches
+                if rng.chance(70) {
+                    for _ in 0..3 {
+                        if World::at("c0") == "flag.load" || World::at("c0") == "client.idle" || !world.enabled("c0") { break; }
+                        perform(&mut world, &Choice::Role("c0".to_string()), &mut sink)?;
+                    }
+                }
+                perform(&mut world, &Choice::Issue(1, Req::Shutdown), &mut sink)?;
+                for _ in 0..2 { if world.enabled("c1") { perform(&mut world, &Choice::Role("c1".to_string()), &mut sink)?; } }   // to `shutdown.cas`, then the CAS itself
+                if rng.chance(50) { settle(&mut world, &mut sink, Some("c1"))?; }   // the read finishes while shutdown() stands right after its CAS
+                settle(&mut world, &mut sink, None)?;
+                for req in [Req::MGet(vec![hot, 1], rng.below(3) as u8), Req::Get(hot), Req::Weight] {
+                    if world.pending_job[2] || World::at("c2") != "client.idle" { break; }
+                    perform(&mut world, &Choice::Issue(2, req), &mut sink)?;
                     settle(&mut world, &mut sink, None)?;
                 }
                 return Ok(());
@@ -728,6 +775,7 @@ pub fn run(seed: u64, out: &str, args: &[String]) -> bool {
         let mut step = 0;
         let mut quiet_rounds = 0;
         let mut shutdown_done = false;
+        let mut mget_before_shutdown = false;
         let mut stalled: Option<(String, u64)> = None;
         let shutdown_at: Option<u64> = if extended && rng.chance(35) { Some(length * (40 + rng.below(50)) / 100) } else { None };
         while hang.is_none() {
@@ -773,8 +821,18 @@ pub fn run(seed: u64, out: &str, args: &[String]) -> bool {
                     let weight = if rng.chance(70) { 1 + rng.below(4) as i64 } else { rng.pick(&[1i64, max / 2, max - 1, max, max + 1]).max(1) };
                     let ttl = if rng.chance(40) { Some(rng.pick(&[1u128, 1_000_000_000, 2_000_000_000, 5_000_000_000])) } else { None };
                     let shutdown_now = extended && !shutdown_done && shutdown_at.map(|at| step >= at).unwrap_or(false);
+                    // every other time `shutdown()` is due a multi-key read is started first (the shutdown follows with the next
+                    // issue): the random scheduler then places the CAS somewhere among the read's flag loads and lookups
+                    let mget_first = shutdown_now && !mget_before_shutdown && idle.len() >= 2 && rng.chance(50);
+                    if shutdown_now { mget_before_shutdown = true; }
+                    let shutdown_now = shutdown_now && !mget_first;
                     if shutdown_now { shutdown_done = true; }
-                    let req = if shutdown_now { Req::Shutdown } else { match rng.below(if extended { 11 } else { 10 }) {
+                    let req = if mget_first {
+                        let variant = rng.below(3) as u8;
+                        let mut ks: Vec<u64> = Vec::new();
+                        for _ in 0..(1 + rng.below(3)) { let k = rng.below(keys); if variant != 0 || !ks.contains(&k) { ks.push(k); } }
+                        Req::MGet(ks, variant)
+                    } else if shutdown_now { Req::Shutdown } else { match rng.below(if extended { 11 } else { 10 }) {
                         10 => if rng.chance(30) { Req::MapGetRef(key) } else { Req::GetRef(key) },
                         0 | 1 | 2 => if extended && rng.chance(30) {
                             // `put` / `put_with_ttl`: the weight is what the installed weight function yields
